@@ -451,6 +451,60 @@ def run_own_source(params, known):
     return dict(name=params['name'], evaluations=count, nontrivial_keys=sorted(keys), violations=violations, known=[], samples=[])
 
 
+def run_admin_delivery(params, known):
+    '''"Bundles addressed to the node's own administrative endpoint are delivered": a status report
+    addressed to the node ID, with every subset of the bundle flags that may accompany an
+    administrative record (must-not-fragment, acknowledgement requested, status time) and both with
+    and without a creation time, is handed to the administrative element's record handler exactly
+    once - observed by wrapping that handler - and a repeat is not.'''
+    import itertools
+    from .c02 import admin_payload
+    violations = []
+    kinds = set()
+    count = 0
+    keys = set()
+    T0 = 700000000000
+
+    def viol(kind, detail, case):
+        if kind in kinds:
+            return
+        kinds.add(kind)
+        v = Violation(PROP, 'router', kind, dict(), '%r: %s' % (case, detail)).as_dict()
+        v['case'] = case
+        violations.append(v)
+    extra = (B.FLAG_NO_FRAGMENT, 0x20, B.FLAG_STATUS_TIME)
+    for table in ('deliver-first', 'forward-first', 'empty'):
+        for bits in range(1 << len(extra)):
+            for ts in ((T0, 1), (0, 5)):
+                count += 1
+                flags = B.FLAG_ADMIN | sum(f for (i, f) in enumerate(extra) if bits >> i & 1)
+                case = dict(table=table, flags=hex(flags), creation=list(ts))
+                world = BpWorld(dict(node_id=NODE, rx_routes=TABLES[table], tx_routes=TX_ROUTES))
+                app = world.app('admin')
+                handlers = getattr(app, '_rec_type_map', None)
+                if not isinstance(handlers, dict) or 1 not in handlers:
+                    raise HarnessError('the administrative application no longer keeps its record handlers in _rec_type_map')
+                calls = []
+                orig = handlers[1]
+                handlers[1] = lambda ctr, msg, orig=orig: (calls.append(1), orig(ctr, msg))[1]
+                blocks = [dict(type=1, num=1, flags=0, crc_type=1, data=admin_payload(0))]
+                if ts[0] == 0:
+                    blocks.insert(0, dict(type=B.T_AGE, num=2, flags=0, crc_type=1, data=B.enc_age(10)))
+                bundle = dict(primary=dict(flags=flags, crc_type=1, dest=NODE, src='dtn://src/', report_to='dtn:none', ts=ts, lifetime=3600000), blocks=blocks)
+                for _ in (1, 2):
+                    world.receive(B.encode(bundle))
+                    world.quiesce()
+                keys.add('%s/%x/%d' % (table, flags, ts[0]))
+                if world.escaped or world.api_errors:
+                    esc = (world.escaped or world.api_errors)[-1]
+                    viol('exception-escaped', '%s: %s' % (esc[0], esc[2] if world.escaped else esc[1]), case)
+                elif len(calls) != 1:
+                    viol('administrative-record-not-handed-to-the-administrative-element-once', 'record handler ran %d times' % len(calls), case)
+                elif world.sent():
+                    viol('transmissions-differ-from-reference', 'the record was also transmitted', case)
+    return dict(name=params['name'], evaluations=count, nontrivial_keys=sorted(keys), violations=violations, known=[], samples=[])
+
+
 def run_ipn3(params, known):
     '''Three-number ipn endpoint IDs (allocator.node.service): sources that differ only in the
     third number are different identities, a destination that differs from a routed one only by
@@ -573,6 +627,7 @@ def scenarios(tier):
             out.append(dict(name='twins/%s/first-%s' % (table, MENU[first][0]), kind='graph',
                             params=dict(table=table, max_depth=depth + 1, first=first, menu=TWINS), dev_bound=0, use_snapshot=False,
                             liveness=False, max_states=500000, weight=1))
+    out.append(dict(name='admin-delivery', kind='enum', runner='run_admin_delivery', params=dict(name='admin-delivery'), weight=3))
     out.append(dict(name='ipn3', kind='enum', runner='run_ipn3', params=dict(name='ipn3'), weight=3))
     out.append(dict(name='own-source', kind='enum', runner='run_own_source', params=dict(name='own-source'), weight=3))
     out.append(dict(name='long-history', kind='enum', runner='run_long_history', params=dict(name='long-history'), weight=3))
@@ -608,6 +663,7 @@ ASSUMPTIONS = [
     'twins scenarios: histories of at most 4 (quick) / 5 (thorough) fragments of three look-alike fragmented bundles (same source; same time and the next sequence number; a millisecond later), under two tables',
     'a delivered bundle carries its own application data (for a reassembled one: the octets of its own fragments)',
     'configuration file: every receive table of up to 3 entries over 4 usable + 4 unusable entries (670 documents with the transmit tables of up to 3 over 2 + 2), read by the JSON-subset stand-in for PyYAML; five destinations routed through each',
+    'administrative delivery: a status report for the node ID under three tables x 8 flag subsets x with / without creation time, handed to the record handler of the administrative application (wrapped by the harness) once',
     'three-number ipn endpoint IDs: look-alike sources, a destination one number longer than the routed one, a foreign node one number longer than this node',
     'own source: node IDs in mixed case, lower case, with dots and in the ipn scheme; the reports and the application bundle the node emitted are fed back to it',
     'long histories: 0, 1, 255, 256, 257, 300 and 1100 other bundles between the first copies of a delivered and a forwarded bundle and their repeats',
